@@ -286,15 +286,22 @@ def main(modname, tier, replay=None):
     violations = []
     for bucket in sorted(total["failures"]):
         f = total["failures"][bucket]
-        match = [k for k in known if k.get("bucket") == bucket]
+        match = [k for k in known if k.get("bucket") == bucket and len(canon(f["case"])) >= k.get("case_min_chars", 0)]
         if match:
             continue
         violations.append(f)
     for k in known:
         hit = total["failures"].get(k.get("bucket"))
+        if hit is not None and len(canon(hit["case"])) < k.get("case_min_chars", 0):
+            hit = None
         line = "KNOWN-FINDING: property=%s %s" % (mod.ID, k.get("what", k.get("id", "")))
         if hit is None:
             line += " [not reproduced in this run]"
+        if hit is not None:
+            try:
+                line += " replay=" + write_replay(mod, dict(hit, bucket="known-" + hit["bucket"]), seed, tier)
+            except Exception:  # noqa
+                pass
         log(line)
         known_lines.append({"id": k.get("id"), "bucket": k.get("bucket"), "hits": (hit or {}).get("hits", 0)})
 
